@@ -20,6 +20,7 @@ CONSTANTS
     Labels, InitArms,
     NRows,        \* size of the data set; rows are 1..NRows (the binding maps them to observations)
     Offsets,      \* a fit may start at any of these offsets into the data set
+    WideOffsets,  \* offsets (>= 100) into a second data set with one more feature column (refit with another width)
     MaxChunk, MaxHist, MaxDepth,
     MinFit,       \* fewest rows a fit accepts (k of KNearest, n_clusters of Clusters)
     MinArms,      \* remove_arm is explored while more than this many arms remain
@@ -41,7 +42,8 @@ DoFit(o, k) ==
     /\ warm' = {}
 
 Fit(o, k) ==
-    /\ "fit" \in Ops /\ o \in Offsets /\ k \in MinFit..MaxChunk /\ o + k <= NRows
+    /\ "fit" \in Ops /\ o \in Offsets \cup WideOffsets /\ k \in MinFit..MaxChunk
+    /\ (o \in WideOffsets \/ o + k <= NRows)
     /\ DoFit(o, k)
     /\ last' = [op |-> "fit", rows |-> Slice(o, k)]
 
@@ -51,7 +53,7 @@ PartialFit(k) ==
     /\ "partial_fit" \in Ops /\ k \in 1..MaxChunk
     /\ IF ~fitted
        THEN /\ k <= NRows /\ k >= MinFit /\ DoFit(0, k) /\ last' = [op |-> "partial_fit", rows |-> Slice(0, k)]
-       ELSE /\ NextRow + k <= NRows /\ Len(rows) + k <= MaxHist
+       ELSE /\ (IF NextRow >= 100 THEN NextRow + k <= 100 + NRows ELSE NextRow + k <= NRows) /\ Len(rows) + k <= MaxHist
             /\ rows' = rows \o Slice(NextRow, k)
             /\ UNCHANGED <<arms, fitted, warm>>
             /\ last' = [op |-> "partial_fit", rows |-> Slice(NextRow, k)]
@@ -87,7 +89,7 @@ Reject(k) ==
     /\ UNCHANGED modelVars
 
 Next ==
-    \/ \E o \in Offsets, k \in 1..MaxChunk : Fit(o, k)
+    \/ \E o \in Offsets \cup WideOffsets, k \in 1..MaxChunk : Fit(o, k)
     \/ \E k \in 1..MaxChunk : PartialFit(k)
     \/ \E a \in Labels : AddArm(a) \/ RemoveArm(a)
     \/ \E q \in Quantiles : WarmStart(q)
